@@ -27,7 +27,7 @@ Proof. exact inside_block_comment_neutral. Qed.
 Print Assumptions C08_inside_block_comment_neutral.
 
 (* ---------- a trailing '-- comment' after the code of a one-line statement ---------------------------------------------------------------
-   Under conditions about the line alone (the '--' stands outside quotes, the code before it is a one-line statement ending with ';')
+   Under conditions about the line alone (the '--' is the first one outside quoted literals, the code before it is a one-line statement ending with ';')
    and for ANY statement parser: the statement is parsed exactly as without the comment, the comment text is reported in the
    comments output and nowhere else, and the machine is back in its initial state. *)
 Theorem C08_trailing_comment_neutral : forall parse_stmt l l' code text not_last,
@@ -40,4 +40,17 @@ Example C08_trailing_comment_example :
   one_line_with_trailing_comment "CREATE TABLE t (a int, b text); -- drop table t; create table z (q int)"
                                  "CREATE TABLE t (a int, b text); -- drop table t; create table z (q int)"
                                  "CREATE TABLE t (a int, b text); " " drop table t; create table z (q int)".
-Proof. constructor; try (vm_compute; reflexivity). exists []. vm_compute. reflexivity. Qed.
+Proof. constructor; try (vm_compute; reflexivity). exists 32%nat. vm_compute. repeat split. Qed.
+
+(* where the comment starts is decided by the code before it alone (fix 0398ce9): if the code holds no "--" outside quoted literals,
+   closes every literal it opens and does not end with '-', then for EVERY comment text — apostrophes, quotes, further "--",
+   statements, anything — the line  code -- text  is cut exactly between code and text *)
+Theorem C08_comment_text_is_irrelevant : forall code text,
+  comment_start None code = None -> end_quote None code = None -> ends_with_dash code = false ->
+  process_in_comment (code ++ IN_COM ++ text) = Ok (code, [text]).
+Proof. exact comment_cut_for_any_text. Qed.
+Print Assumptions C08_comment_text_is_irrelevant.
+(* the witness of the repaired defect: a literal in the code, an apostrophe in the comment *)
+Example C08_apostrophe_in_comment :
+  process_in_comment "CREATE TABLE t (a int DEFAULT 'x -- y'); -- it's done" = Ok ("CREATE TABLE t (a int DEFAULT 'x -- y'); ", [" it's done"]).
+Proof. vm_compute. reflexivity. Qed.
